@@ -79,7 +79,7 @@ func features(c Case) []string {
 			set[f] = true
 		}
 	} else {
-		if c.Mode == "ill" && !identityPerm(c.Perm) {
+		if (c.Mode == "ill" || hasWildRow(c)) && !identityPerm(c.Perm) {
 			set["ill-typed-history"] = true
 		}
 		walk(c.Expr, nil, func(n, _ *Node) {
@@ -107,10 +107,20 @@ func features(c Case) []string {
 	return out
 }
 
+// hasWildRow: some row holds text in a numeric column (its own value is ill-typed for most expressions).
+func hasWildRow(c Case) bool {
+	for _, r := range c.Rows {
+		if w, ok := r["wild"]; ok && w.B {
+			return true
+		}
+	}
+	return false
+}
+
 // avoidOpenFindings moves a freshly generated case out of every open finding's shape.
 func avoidOpenFindings(c *Case) {
 	open := pbt.OpenFindings(prop)
-	if c.Mode == "ill" && pbt.Open(prop, "ill-typed-history") && !identityPerm(c.Perm) {
+	if (c.Mode == "ill" || hasWildRow(*c)) && pbt.Open(prop, "ill-typed-history") && !identityPerm(c.Perm) {
 		// both instances then see the same history: the order-dependence of ill-typed expressions cannot show
 		for i := range c.Perm {
 			c.Perm[i] = i
